@@ -13,12 +13,20 @@ type vnCountVisitor struct{ enters, exits int }
 func (v *vnCountVisitor) Enter(n INode) IVisitor { v.enters++; return v }
 func (v *vnCountVisitor) Exit(n INode)           { v.exits++ }
 
+var vnStmtPrefixes = []string{"while(a)", "for(;;)", "for(a in b)", "for(a of b)", "if(a)", "if(a)b;else ", "do ", "do;while(a)", "a:", "with(a)", "switch(a){", "try{}catch{", "class A{", "function f(){", "x=>", "return ", "throw ", "var a=", "let[a]=", "import a from", "export ", "async function*f(){yield", "`${a}", "a?.", "new a", "label:{break ", "x={get a(){", "x={...a,", "class A{static{", "class A{#a;b(){this.#a"}
+
 // VerifParseW01: js.Parse under every Options value on every (ASCII) input of length 0..N;
 // an accepted tree can be printed (String, JS), walked and converted to JSON without a panic.
 func VerifParseW01() {
 	n := vRange("n", 0, vParam("N", 2))
 	b := vBytes("b", n)
 	vnASCII(b)
+	if vParam("PRE", 0) != 0 {
+		// statement sketches: a concrete construct head followed by the symbolic bytes
+		pre := vnStmtPrefixes[vRange("pre", 0, len(vnStmtPrefixes)-1)]
+		b = append([]byte(pre), b...)
+		n = len(b)
+	}
 	o := Options{WhileToFor: vRange("whileToFor", 0, 1) == 1, Inline: vRange("inline", 0, 1) == 1}
 	ast, err := Parse(parse.NewInputBytes(append(make([]byte, 0, n+1), b...)), o)
 	if err != nil {
